@@ -289,9 +289,10 @@ Resync(pre, post, p) ==
                   !.frames = IF B(p.dbgf) THEN [i \in 1..Len(p.frames) |-> FrameOf(p.frames[i])] ELSE @,
                   !.obs = [a \in { q[1] : q \in SeqSet(p.obs) } |-> (CHOOSE q \in SeqSet(p.obs) : q[1] = a)[2]],
                   !.kbd = p.kbd, !.disp = p.disp, !.alloca = AllocaSeq(p.alloca),
-                  !.devs = [j \in 1..Len(@) |->
-                              IF @[j].k = "timer" THEN [@[j] EXCEPT !.time = p.timers[@[j].slot], !.en = B(p.timer_en[@[j].slot])]
-                              ELSE IF @[j].k = "kbd" /\ j = 2 THEN [@[j] EXCEPT !.ie = B(p.kbdie)] ELSE @[j]],
+                  !.devs = [j \in 1..Len(post.devs) |->
+                              LET d == post.devs[j] IN
+                              IF d.k = "timer" THEN [d EXCEPT !.time = p.timers[d.slot], !.en = B(p.timer_en[d.slot])]
+                              ELSE IF d.k = "kbd" /\ j = 2 THEN [d EXCEPT !.ie = B(p.kbdie)] ELSE d],
                   !.memw = [a \in (DOMAIN pre.memw) \cup diffA |-> IF a \in diffA THEN dval(a) ELSE pre.memw[a]],
                   !.dirty = <<>>, !.drift = TRUE]
 
